@@ -14,10 +14,22 @@
 //   <D> n  x k gy            y = pown_fw(x, k); pown_bw(x, y, gy, k, gx)        -> y gx
 //   <D> lse|lsm|sm x1,..,xn  functions::logsumexp / log_softmax / softmax along axis 0
 //   <D> sce x1,..,xn t1,..,tn  functions::softmax_cross_entropy(x, t, 0)
-// All tensors are single elements (shape {}), except the softmax family (shape {n}).
+// Elementwise rows: every tensor operand is a VECTOR of VLEN = 21 (= 16k+5) equal elements, so that
+// devices::Eigen runs its packet body AND its scalar tail (a single-element tensor would only run
+// Eigen's scalar path, i.e. libm against libm); the `k` operand of the `s` rows stays a scalar tensor
+// (that is its contract); the softmax family has shape {n}.  The reported values are those of
+// element 0.  All VLEN elements of one call are computed from the same operands: when some element is
+// not bit-identical to element 0 the line continues with
+//     !tail <j> <values of element j>       j = the element deviating most from element 0
+// so that the engine judges both code paths against its oracle, and with the marker
+//     !disagree
+// when that deviation is beyond agreement up to rounding (different inf/NaN class, or more than
+// 4 float32 ulps of max(1, |a|, |b|)).
 #include <primitiv/primitiv.h>
+#include <cmath>
 #include <cstdio>
 #include <cstdlib>
+#include <cstring>
 #include <map>
 #include "pvh.h"
 using namespace primitiv;
@@ -64,41 +76,79 @@ static std::string pr(const std::vector<float> &v) {
   }
   return out;
 }
-static float one(const Tensor &t) { return t.to_vector().at(0); }
+static const std::uint32_t VLEN = 21;
+static int cls(float v) { return v != v ? 0 : (std::isinf(v) ? (v > 0 ? 1 : 2) : 3); }
+static double ulp32(double v) {
+  v = std::fabs(v);
+  if (v < std::ldexp(1.0, -126)) return std::ldexp(1.0, -149);
+  int e; std::frexp(v, &e); return std::ldexp(1.0, e - 24);
+}
+// deviation of b from a in float32 ulps of max(1,|a|,|b|); a different inf/NaN class counts as infinite
+static double dev_ulps(float a, float b) {
+  if (cls(a) != cls(b)) return HUGE_VAL;
+  if (cls(a) != 3) return 0.0;
+  const double m = std::fmax(1.0, std::fmax(std::fabs((double)a), std::fabs((double)b)));
+  return std::fabs((double)a - (double)b) / ulp32(m);
+}
+static bool same_bits(float a, float b) { return std::memcmp(&a, &b, sizeof a) == 0 || (a != a && b != b); }
+// element 0 of every output tensor, plus (see the header) the most deviating element
+static std::string rep(const std::vector<Tensor> &outs) {
+  std::vector<std::vector<float>> cols;
+  for (const Tensor &t : outs) cols.push_back(t.to_vector());
+  std::vector<float> head;
+  for (auto &c : cols) head.push_back(c.at(0));
+  std::string line = pr(head);
+  size_t worst = 0; double wdev = -1.0; bool identical = true;
+  for (auto &c : cols)
+    for (size_t j = 1; j < c.size(); ++j) {
+      if (same_bits(c[0], c[j])) continue;
+      identical = false;
+      const double d = dev_ulps(c[0], c[j]);
+      if (d > wdev) { wdev = d; worst = j; }
+    }
+  if (!identical) {
+    std::vector<float> tail;
+    for (auto &c : cols) tail.push_back(c.at(worst));
+    line += " !tail " + std::to_string(worst) + " " + pr(tail);
+    if (wdev > 4.0) line += " !disagree";
+  }
+  return line;
+}
 
 static std::string eval(Device &d, const std::vector<std::string> &t) {
   const std::string &k = t.at(1);
-  auto T = [&](float v) { return d.new_tensor_by_constant(Shape(), v); };
-  if (k == "f1") return pr({one((d.*fw1.at(t.at(2)))(T(fl(t.at(3)))))});
+  auto T = [&](float v) { return d.new_tensor_by_constant(Shape({VLEN}), v); };
+  auto K = [&](float v) { return d.new_tensor_by_constant(Shape(), v); };
+  if (k == "f1") return rep({(d.*fw1.at(t.at(2)))(T(fl(t.at(3))))});
   if (k == "u") {
     Tensor x = T(fl(t.at(3))), gy = T(fl(t.at(4))), gx = T(0);
     Tensor y = (d.*fw1.at(t.at(2)))(x);
     (d.*bw1.at(t.at(2)))(x, y, gy, gx);
-    return pr({one(y), one(gx)});
+    return rep({y, gx});
   }
-  if (k == "fc") return pr({one((d.*fwc.at(t.at(2)))(T(fl(t.at(3))), fl(t.at(4))))});
+  if (k == "fc") return rep({(d.*fwc.at(t.at(2)))(T(fl(t.at(3))), fl(t.at(4)))});
   if (k == "c") {
     Tensor x = T(fl(t.at(3))), gy = T(fl(t.at(5))), gx = T(0);
     float kk = fl(t.at(4));
     Tensor y = (d.*fwc.at(t.at(2)))(x, kk);
     (d.*bwc.at(t.at(2)))(x, y, gy, kk, gx);
-    return pr({one(y), one(gx)});
+    return rep({y, gx});
   }
-  if (k == "s") return pr({one((d.*fws.at(t.at(2)))(T(fl(t.at(3))), T(fl(t.at(4)))))});
-  if (k == "fb") return pr({one((d.*fw2.at(t.at(2)))(T(fl(t.at(3))), T(fl(t.at(4)))))});
+  if (k == "s") return rep({(d.*fws.at(t.at(2)))(T(fl(t.at(3))), K(fl(t.at(4))))});
+  if (k == "fb") return rep({(d.*fw2.at(t.at(2)))(T(fl(t.at(3))), T(fl(t.at(4))))});
   if (k == "b") {
     Tensor a = T(fl(t.at(3))), b = T(fl(t.at(4))), gy = T(fl(t.at(5))), ga = T(0), gb = T(0);
     Tensor y = (d.*fw2.at(t.at(2)))(a, b);
     (d.*bw2.at(t.at(2)))(a, b, y, gy, ga, gb);
-    return pr({one(y), one(ga), one(gb)});
+    return rep({y, ga, gb});
   }
-  if (k == "fn") return pr({one(d.pown_fw(T(fl(t.at(2))), static_cast<std::int32_t>(std::stoll(t.at(3)))))});
+  if (k == "fn") return rep({d.pown_fw(T(fl(t.at(2))), static_cast<std::int32_t>(std::stoll(t.at(3))))});
   if (k == "n") {
     Tensor x = T(fl(t.at(2))), gy = T(fl(t.at(4))), gx = T(0);
     std::int32_t kk = static_cast<std::int32_t>(std::stoll(t.at(3)));
     Tensor y = d.pown_fw(x, kk);
     d.pown_bw(x, y, gy, kk, gx);
-    return pr({one(y), one(gx)});
+    return rep({y, gx});
   }
   if (k == "lse" || k == "lsm" || k == "sm" || k == "sce") {
     std::vector<float> xs = fls(t.at(2));
